@@ -21,7 +21,7 @@ var (
 	verifSeq  uint64
 	verifFile *bufio.Writer
 	verifOnce sync.Once
-	// VerifSink, if non-nil, receives every event (called under verifMu).
+	// VerifSink, if non-nil, receives every event (read under verifMu, called after it has been released).
 	VerifSink func(ev map[string]any)
 )
 
@@ -34,12 +34,18 @@ func verifInit() {
 	}
 }
 
+// VerifHasGate reports that the in-process sink is invoked AFTER verifMu has been released: a sink may block the
+// emitting goroutine (scheduler gate for deterministic interleavings) without stalling other emitters. Events are
+// still totally ordered by the sequence number "n", which is taken under verifMu.
+const VerifHasGate = true
+
 // VerifEmit records an event: obj identifies the object instance, ev the action, kv alternating keys and values.
 func VerifEmit(obj string, ev string, kv ...any) {
 	verifOnce.Do(verifInit)
 	verifMu.Lock()
-	defer verifMu.Unlock()
-	if VerifSink == nil && verifFile == nil {
+	sink := VerifSink
+	if sink == nil && verifFile == nil {
+		verifMu.Unlock()
 		return
 	}
 	verifSeq++
@@ -49,15 +55,16 @@ func VerifEmit(obj string, ev string, kv ...any) {
 			m[k] = kv[i+1]
 		}
 	}
-	if VerifSink != nil {
-		VerifSink(m)
-	}
 	if verifFile != nil {
 		if b, err := json.Marshal(m); err == nil {
 			_, _ = verifFile.Write(b)
 			_ = verifFile.WriteByte('\n')
 			_ = verifFile.Flush()
 		}
+	}
+	verifMu.Unlock()
+	if sink != nil {
+		sink(m)
 	}
 }
 
